@@ -265,6 +265,24 @@ fn guarded_hist(args: &Args, search: bool) -> Report {
     }
 }
 
+/// the shared witnesses (hist.rs) + the two C02 classes that have no entry there yet
+fn run_known(args: &Args) -> Report {
+    let mut rep = hist::run_known(args);
+    let r = verif_harness::guarded(|| {
+        let u = Url::parse("file://x.y///c:").unwrap();
+        let v = Url::parse(u.as_str()).unwrap();
+        format!("{} -> {}", u, v)
+    });
+    rep.known.push(("F-C02-1".into(), r == "file://x.y/c: -> file:///c:", r));
+    let r = verif_harness::guarded(|| {
+        let mut u = Url::parse("a://h:80/").unwrap();
+        let _ = u.set_host(Some(""));
+        format!("{} reparse={:?}", u, Url::parse(u.as_str()).map(|v| v.to_string()))
+    });
+    rep.known.push(("F-C02-4".into(), r.starts_with("a://:80/ reparse=Err"), r));
+    rep
+}
+
 fn run_replay(args: &Args) -> Report {
     let txt = std::fs::read_to_string(&args.file).unwrap_or_default();
     let req = txt.split("\"request\":").nth(1).and_then(|s| s.split('"').nth(1)).unwrap_or("").to_string();
@@ -300,7 +318,7 @@ fn main() {
                 p
             }
         }
-        "known" => hist::run_known(&args),
+        "known" => run_known(&args),
         "replay" => run_replay(&args),
         m => panic!("unknown mode {}", m),
     };
